@@ -254,6 +254,35 @@ func runC09(c *fw.Ctx) {
 		c.Violate("same-session-tag/"+sig, "sessions differing only in %s (%s) derive the same session tag %x\n  Y: %s (ids %v sid %q)\n  X: %s (ids %v sid %q)", pr.param, pr.variant, sy[:8], Y.Name, Y.Parts, Y.SID, X.String(), X.Parts, X.SID)
 	}
 	c.Probe("ssid_pairs_compared", 1)
+	// (i-b) so do the Fiat-Shamir contexts from which proofs, commitments and echo hashes are derived:
+	// the session tag is an unauthenticated header, what binds a proof to its session is this state
+	for _, id := range Y.Parts {
+		mkx, okx := X.Mk()[id]
+		mky, oky := Y.Mk()[id]
+		if !okx || !oky {
+			continue
+		}
+		rx, ry := sim.NewDRBG(c.Label("ctx-x", id)), sim.NewDRBG(c.Label("ctx-y", id))
+		old := c.R.Use(rx)
+		hx, ex := mkx()
+		c.R.Use(ry)
+		hy, ey := mky()
+		c.R.Use(old)
+		if ex != nil || ey != nil || hx == nil || hy == nil {
+			break
+		}
+		cx, cfx := scen.FSContext(hx, id)
+		cy, cfy := scen.FSContext(hy, id)
+		if cx == nil || cy == nil {
+			c.Probe("fs_context_unreadable", 1)
+			break
+		}
+		c.Probe("fs_context_pairs_compared", 1)
+		if bytes.Equal(cx, cy) || (cfx != nil && bytes.Equal(cfx, cfy)) {
+			c.Violate("same-proof-context/"+sig, "sessions differing only in %s (%s) start party %q with the same Fiat-Shamir context %x: a proof or commitment made in one verifies in the other once the (unauthenticated) session tag in the header is rewritten\n  Y: %s\n  X: %s", pr.param, pr.variant, id, cy[:8], Y.Name, X.String())
+		}
+		break // one common party is enough
+	}
 	// (ii) inject every message of X into a run of Y
 	ex := scen.NewSession(c, "run", Y.Mk(), nil)
 	ex.Net.Policy = sim.DrawPolicy(ex.Net)
